@@ -8,6 +8,7 @@ import (
 	"os"
 	"reflect"
 	"strings"
+	"sync/atomic"
 
 	"github.com/brutella/hc/accessory"
 	"github.com/brutella/hc/characteristic"
@@ -27,6 +28,7 @@ type chr struct {
 	Ev, Wr   bool
 	lo, hi   float64
 	set      func(v interface{})
+	hw       *int64 // see protoChar.hw
 	hcObj    *characteristic.Characteristic
 	cur      interface{} // model value in JSON-decoded form: bool, float64, string
 }
@@ -56,19 +58,20 @@ type protoChar struct {
 	lo   float64
 	hi   float64
 	set  func(v interface{})
+	hw   *int64 // non-nil: the characteristic has a read callback (OnValueRemoteGet) that returns *hw
 }
 
 func boolChar(name string, b *characteristic.Bool) protoChar {
-	return protoChar{name, b.Characteristic, "bool", 0, 1, func(v interface{}) { b.SetValue(v.(bool)) }}
+	return protoChar{name: name, c: b.Characteristic, kind: "bool", lo: 0, hi: 1, set: func(v interface{}) { b.SetValue(v.(bool)) }}
 }
 func intChar(name string, b *characteristic.Int, lo, hi int) protoChar {
-	return protoChar{name, b.Characteristic, "int", float64(lo), float64(hi), func(v interface{}) { b.SetValue(int(v.(float64))) }}
+	return protoChar{name: name, c: b.Characteristic, kind: "int", lo: float64(lo), hi: float64(hi), set: func(v interface{}) { b.SetValue(int(v.(float64))) }}
 }
 func floatChar(name string, b *characteristic.Float, lo, hi float64) protoChar {
-	return protoChar{name, b.Characteristic, "float", lo, hi, func(v interface{}) { b.SetValue(v.(float64)) }}
+	return protoChar{name: name, c: b.Characteristic, kind: "float", lo: lo, hi: hi, set: func(v interface{}) { b.SetValue(v.(float64)) }}
 }
 func stringChar(name string, b *characteristic.String) protoChar {
-	return protoChar{name, b.Characteristic, "string", 0, 0, func(v interface{}) { b.SetValue(v.(string)) }}
+	return protoChar{name: name, c: b.Characteristic, kind: "string", lo: 0, hi: 0, set: func(v interface{}) { b.SetValue(v.(string)) }}
 }
 
 type protoAcc struct {
@@ -82,6 +85,7 @@ const (
 	typNote  = "F1000001-0000-1000-8000-0026BB765291" // string, read+write, NO ev
 	typMemo  = "F1000002-0000-1000-8000-0026BB765291" // string, read+write+ev
 	typLevel = "F1000003-0000-1000-8000-0026BB765291" // int, read+ev (read-only for controllers)
+	typSens  = "F1000004-0000-1000-8000-0026BB765291" // int, read+write+ev, with a read callback: a remote read refreshes the value from the "hardware"
 	typExtra = "F10000%02X-0000-1000-8000-0026BB765291"
 )
 
@@ -102,8 +106,20 @@ func firstAccessory(tag string, nExtra int) protoAcc {
 	sv.AddCharacteristic(note.Characteristic)
 	sv.AddCharacteristic(memo.Characteristic)
 	sv.AddCharacteristic(level.Characteristic)
+	// a characteristic whose value the application refreshes from its "hardware" whenever a controller reads it
+	sensor := characteristic.NewInt(typSens)
+	sensor.Format = characteristic.FormatUInt32 // (without a format hc stores remote float64 and local int values as they come)
+	sensor.Perms = characteristic.PermsAll()
+	sensor.SetValue(3)
+	hw := new(int64)
+	*hw = 3
+	sensor.OnValueRemoteGet(func() int { return int(atomic.LoadInt64(hw)) })
+	sv.AddCharacteristic(sensor.Characteristic)
 	p := protoAcc{name: "switch", acc: sw.Accessory}
 	p.chars = []protoChar{boolChar("switch.On", sw.Switch.On.Bool), stringChar("syn.note(no-ev)", note), stringChar("syn.memo", memo), intChar("syn.level(ro)", level, 0, 1000)}
+	sc := intChar("syn.sensor(read-callback)", sensor, 0, 1000)
+	sc.hw = hw
+	p.chars = append(p.chars, sc)
 	for i := 0; i < nExtra; i++ {
 		x := characteristic.NewString(fmt.Sprintf(typExtra, 0x10+i))
 		x.Perms = characteristic.PermsAll()
@@ -203,7 +219,7 @@ func startFixture(base string, pin string, kinds []string, nExtra int, stored []
 				return nil, fmt.Errorf("characteristic %s has no readable value in the attribute database", pc.name)
 			}
 			ch := &chr{Key: fmt.Sprintf("%d:%s", aid, pc.name), AID: aid, IID: ac.IID, Kind: pc.kind, Ev: ac.Has("ev"), Wr: ac.Has("pw"),
-				lo: pc.lo, hi: pc.hi, set: pc.set, hcObj: pc.c, cur: v}
+				lo: pc.lo, hi: pc.hi, set: pc.set, hw: pc.hw, hcObj: pc.c, cur: v}
 			f.byID[[2]uint64{aid, ac.IID}] = len(f.chars)
 			f.chars = append(f.chars, ch)
 		}
